@@ -268,7 +268,7 @@ def match_known(known, prop, viol):
     """A violation is a listed finding only when property, tag and witness key all match."""
     key = viol.get("key")
     for k in known.get("findings", []):
-        if k["property"] == prop and k["tag"] == viol["tag"] and (k.get("key") is None or k["key"] == key):
+        if k["property"] == prop and k["tag"] in ("*", viol["tag"]) and (k.get("key") is None or k["key"] == key):
             return k
     return None
 
